@@ -345,3 +345,28 @@ M("c15.pretty-prefix-not-counted", "C15", "behave/formatter/pretty.py",
   "        line_length = len(prefix) + len(step.keyword) + 1\n", "        line_length = 5 + len(step.keyword)\n")
 M("c15.pretty-step-lines-off-by-one", "C15", "behave/formatter/pretty.py",
   "self.step_lines = int((line_length - 1) / self.display_width)", "self.step_lines = int(line_length / self.display_width)")
+# ---- round 11: the monitors added with the fix b1d5b0a and the u/v changes ----------------------------------------------
+M("c17.skip-of-stepless-scenario-forgets-hook-error", ["C17", "C12"], MOD,
+  "        if scenario_without_steps and not self.hook_failed:\n            self.set_status(Status.skipped)",
+  "        if scenario_without_steps:\n            self.set_status(Status.skipped)")
+M("c12.tag-hook-owner-after-cleanup-error", ["C12", "C13"], RUN,
+  "        try:\n            self._do_cleanups()\n        finally:\n            # -- ENSURE: Layer is removed even if cleanup-errors occur.\n            self._stack.pop(0)",
+  "        self._do_cleanups()\n        self._stack.pop(0)")
+M("c13.getattr-falls-back-to-userdata", "C13", RUN,
+  "        msg = \"'{0}' object has no attribute '{1}'\"",
+  "        _ud = getattr(self.__dict__.get('_config'), 'userdata', None)\n        if isinstance(_ud, dict) and attr in _ud:\n            return _ud[attr]\n        msg = \"'{0}' object has no attribute '{1}'\"")
+M("c19.value-object-equal-text-shortcut", "C19", "behave/tag_matcher.py",
+  "        return bool(self.compare(self.value, tag_value))",
+  "        if self.value == tag_value:\n            return True\n        return bool(self.compare(self.value, tag_value))")
+M("c06.outline-iter-uses-cache", "C06", MOD,
+  "    def __iter__(self):\n        return iter(self.scenarios)", "    def __iter__(self):\n        return iter(self._scenarios)")
+M("c07.caret-class-negated", "C07", TE + "model.py",
+  "        self.pattern = pattern\n", "        self.pattern = pattern.replace(\"[^\", \"[!\")\n")
+M("c09.bare-star-matches-untagged", "C09", TE + "model.py",
+  "    def evaluate(self, values):\n        for value in values:\n            # -- REQUIRE: case-sensitive matching\n            if fnmatchcase(value, self.pattern):",
+  "    def evaluate(self, values):\n        if self.pattern == \"*\":\n            return True\n        for value in values:\n            # -- REQUIRE: case-sensitive matching\n            if fnmatchcase(value, self.pattern):")
+M("c03.equal-rule-not-added", "C03", MOD,
+  "        self.rules.append(rule)\n        self.run_items.append(rule)", "        self.rules.append(rule)\n        if rule not in self.run_items:\n            self.run_items.append(rule)")
+M("c17.ensure-dir-one-level", "C17", "behave/formatter/base.py", "os.makedirs(directory)", "os.mkdir(directory)")
+M("c20.behave-stage-over-file", "C20", CFG, "        if stage is None:\n            # -- USE ENVIRONMENT-VARIABLE, if stage is undefined.",
+  "        if stage is None or stage == self.defaults.get(\"stage\"):\n            # -- USE ENVIRONMENT-VARIABLE, if stage is undefined.")
